@@ -20,7 +20,7 @@ LEVEL = "exploration"
 RULE = ("random well-typed EEMS models (3-18 commands over all built-in data commands, CSV tables of 2-14 rows with int and float "
         "columns and missing cells; a ledger forces every command into the sample) x {original, reversed, k random permutations, "
         "metadata variant, extra-consumer variant}; distinct by (sorted command multiset up to 8, depth, max fan-out, table dtype mix, has-missing)")
-REQUIRED_COUNTERS = ["node_postconditions", "read_results_compared", "variant_runs", "shared_results_compared_bit_exact"]
+REQUIRED_COUNTERS = ["node_postconditions", "read_results_compared", "variant_runs", "shared_results_compared_bit_exact", "same_path_reruns"]
 
 
 def post_merge(counters, tier):
@@ -102,12 +102,22 @@ def _run_variant(ctx, model, d, tag, check_nodes=True):
         except (ZeroDivisionError, OverflowError, ValueError) as e:
             ctx.dontcare("%s reference arithmetic %s" % (name, type(e).__name__))
             return
+        if isinstance(value, numpy.ndarray) and value.dtype.kind in "iu" and any(w is not None and abs(w) >= 2 ** 62 for w in want):
+            ctx.dontcare("%s: integer result beyond the int64 range (overflow is out of scope)" % name)
+            return
         ctx.count("node_postconditions")
         ctx.count("commands_covered:" + name)
         if not isinstance(value, numpy.ndarray):
             failed.append(("%s:non-array-result" % name, {"got": repr(value)[:80]}))
             return
-        bad = ref.compare(value, want, scale=scale, rel=1e-9)
+        try:
+            bad = ref.compare(value, want, scale=scale, rel=1e-9)
+        except OverflowError:
+            ctx.dontcare("%s: reference value beyond the float64 range" % name)
+            return
+        if bad and bad[0] == "non-finite" and any(w is not None and abs(w) > 10 ** 300 for w in want):
+            ctx.dontcare("%s: float overflow in a chained model (out of scope)" % name)
+            return
         if bad:
             failed.append(("%s:%s" % (name, bad[0]), {"cell": bad[1], "got": bad[2], "want": bad[3], "args": c["args"],
                                                        "inputs": [arr.describe(cmd.program.commands[dn]._result, 10) for dn in deps]}))
@@ -186,6 +196,17 @@ def run_case(ctx, case):
         extra["commands"].append({"result": "Extra%d" % j, "cmd": "Copy", "args": {"InFieldName": tgt}})
     extra["commands"].append({"result": "ExtraPrint", "cmd": "PrintVars", "args": {"InFieldNames": [rng.choice(datanames)], "OutFileName": "extra_vars.txt"}})
     variants.append(("extra-consumers", models.permuted(extra, rng)))
+    # the same command file over a *changed* table written to the same path in the same process: results must follow the
+    # file (the node postconditions compare every read with the table as it is now)
+    changed = copy.deepcopy(model)
+    for c in changed["table"]["cols"].values():
+        c["data"] = [(v + 1 if v != changed["table"]["missing"] else v) for v in reversed(c["data"])]
+    same_dir = ctx.scratch()
+    first = _run_variant(ctx, model, same_dir, "same-path-first", check_nodes=False)
+    second = _run_variant(ctx, changed, same_dir, "same-path-changed-table", check_nodes=True)
+    ctx.count("same_path_reruns")
+    if second == "failed":
+        return
     base_d = {n: arr.digest(a) for n, a in base.items()}
     for tag, vm in variants:
         res = _run_variant(ctx, vm, ctx.scratch(), tag, check_nodes=(tag in ("reversed", "extra-consumers")))
